@@ -65,6 +65,10 @@ def main():
         for d in ("mod", "clean"):
             sh(["git", "-C", "/repo", "worktree", "remove", "--force", wt + "/" + d])
         shutil.rmtree(wt, ignore_errors=True)
+    prev = meta.get("verified_by_me")
+    if isinstance(prev, dict) and prev.get("checks") and prev.get("checks") != res.get("checks"):
+        # keep what the checks said before they were strengthened
+        meta.setdefault("earlier_results", []).append(prev["checks"])
     meta["verified_by_me"] = res
     meta["breaks"] = pid
     meta["ran"] = "pinned suite with the change; demo.py on changed and on clean scratch worktree; ./mc check {} (quick) with MOCLO_ROOT=<changed worktree>".format(" ".join(checks))
